@@ -24,6 +24,7 @@ import (
 func init() {
 	register(&Family{Name: "slash", Gen: genSlashHist, Run: runSlashHist})
 	register(&Family{Name: "ledgerslash", Gen: genSlashHist, Run: runSlashHist}) // C05: the same histories, ledger monitors
+	register(&Family{Name: "nohaltslash", Gen: genSlashHist, Run: runSlashHist}) // C02: the same histories never stop the chain
 }
 
 func dumpSlash(c *Chain) []string {
@@ -278,13 +279,14 @@ func genSlashHist(r *Rng, i int, tier string) []string {
 	reps := []string{"a0", "a0", "v0", "v1"}
 	nrep := 0
 	ndisp := 0
+	dsigned := false
 	nops := 25 + r.Intn(25)
 	if tier == "thorough" {
 		nops = 60 + r.Intn(80)
 	}
 	for k := 0; k < nops; k++ {
 		a := r.PickS("a1", "a2", "a3", "a4", "a5", "a0")
-		switch r.Intn(17) {
+		switch r.Intn(18) {
 		case 0, 1, 2: // a tipped round with reports
 			q := r.Intn(3)
 			tx("tip a4 q%d %d", q, r.Range(1000, 1e6))
@@ -302,6 +304,13 @@ func genSlashHist(r *Rng, i int, tier string) []string {
 			nrep += 2
 			add("blk 1000")
 			add("blk 1000")
+		case 16: // double-sign evidence against the reporter-validator v1 (once): slashed 5 %, jailed for ever; its delegators keep their
+			// shares at the lower exchange rate, reports it backed stay disputable
+			if nv == 4 && !dsigned {
+				dsigned = true
+				add("blk 1000 dsign=v1")
+				add("blk 1000")
+			}
 		case 3: // staking changes between report and dispute
 			tx("redel %s v%d v%d %d", r.PickS("a0", "a1", "a2", "a3"), r.Intn(nv), r.Intn(nv), r.Pick(500000, 999999, r.Range(1e5, 3e6)))
 		case 4, 5:
